@@ -124,3 +124,48 @@ func ReplaceBytes(frame []byte, start, end int, repl []byte) []byte {
 func FixRemLen(frame []byte, hdr int) []byte {
 	return Reframe(frame[0], frame[hdr:])
 }
+
+// MakeProp builds a well-typed property node for any defined identifier,
+// with a value derived from seed (used to plant a property that is defined
+// by MQTT but not allowed in the packet at hand).
+func MakeProp(id byte, seed uint32) *Node {
+	d, ok := PropTable[id]
+	if !ok {
+		return nil
+	}
+	name := "planted"
+	switch d.typ {
+	case tByte:
+		return prop(id, name, leafByte(name, byte(seed&1)))
+	case tU16:
+		return prop(id, name, leafU16(name, uint16(seed)))
+	case tU32:
+		return prop(id, name, leafU32(name, seed))
+	case tVBI:
+		return prop(id, name, leafVBI(name, seed%268435455+1))
+	case tStr:
+		return prop(id, name, leafStr(name, "s"))
+	case tBin:
+		return prop(id, name, leafBin(name, []byte{byte(seed)}))
+	default:
+		return prop(id, name, pair(name, "k", "v"))
+	}
+}
+
+// DefinedPropIDs lists the 27 identifiers MQTT v5.0 defines.
+func DefinedPropIDs() []byte {
+	var out []byte
+	for i := 0; i < 256; i++ {
+		if _, ok := PropTable[byte(i)]; ok {
+			out = append(out, byte(i))
+		}
+	}
+	return out
+}
+
+// AllowedIn reports whether property id may appear in packets of type typ
+// (scope 16 = will properties).
+func AllowedIn(id byte, scope int) bool {
+	d, ok := PropTable[id]
+	return ok && d.in&(1<<uint(scope)) != 0
+}
